@@ -10,7 +10,7 @@
      descriptions-when-off descriptions although they were not asked for
      descriptions-missing  with descriptions on, the described phrases are not exactly (as a bag) the
                            phrases the documented grammar makes the query look up
-     wrong-constant        a description does not carry the constant the lookup of that phrase found
+     wrong-constant        the descriptions are not exactly the lookups that found a document (phrase and constant, in order)
      descriptions-differ   two evaluations of the same query describe different constants
      order                 (drift) the descriptions are not in the specification's evaluation order     *)
 EXTENDS Eval, Parser, Json, IOUtils, TLCExt
@@ -48,7 +48,9 @@ Check(r, ans, dsc) ==
       p1 == IF ans.set /\ ans.res # r.res THEN <<"answer-differs">> ELSE <<>>
       p2 == IF ~r.describe /\ r.descs # <<>> THEN <<"descriptions-when-off">> ELSE <<>>
       p3 == IF r.describe /\ e.ok /\ AllOk(r.res) /\ Bag(Firsts(r.descs)) # Bag(e.ps) THEN <<"descriptions-missing">> ELSE <<>>
-      p4 == IF r.describe /\ Len(r.lookups) = Len(r.descs) /\ AllOk(r.res) /\ r.lookups # r.descs THEN <<"wrong-constant">> ELSE <<>>
+      \* every lookup that found a document is described, with that document, whether or not the expression later fails
+      found == SelectSeq(r.lookups, LAMBDA x : x[2] # 0)
+      p4 == IF r.describe /\ r.panic = "" /\ found # r.descs THEN <<"wrong-constant">> ELSE <<>>
       p5 == IF r.describe /\ dsc.set /\ dsc.descs # r.descs THEN <<"descriptions-differ">> ELSE <<>>
       p6 == IF r.describe /\ e.ok /\ AllOk(r.res) /\ Bag(Firsts(r.descs)) = Bag(e.ps) /\ Firsts(r.descs) # e.ordered THEN <<"order">> ELSE <<>> IN
   p0 \o p1 \o p2 \o p3 \o p4 \o p5 \o p6
